@@ -7,6 +7,93 @@ namespace Routing
 
 variable {τ ν : Type}
 
+theorem encAt_ok_lt {enc : τ → ν → Enc} {vals : List ν} {t : τ} {i : Nat} {b : Option Bytes}
+    (h : encAt enc vals t i = .ok b) : i < vals.length := by
+  unfold encAt at h
+  cases hv : vals[i]? with
+  | none => simp [hv] at h
+  | some v => exact (List.getElem?_eq_some_iff.mp hv).1
+
+/-- when the composite loop ends with a key, every index it used had a bound value -/
+theorem compositeLoop_key_bound (enc : τ → ν → Enc) (vals : List ν) :
+    ∀ (is : List Nat) (ts : List τ) (acc : Bytes) (b : Option Bytes),
+      compositeLoop enc vals is ts acc = .key b → ∀ i ∈ is, i < vals.length
+  | [], _, _, _, _ => by intro i hi; cases hi
+  | _ :: _, [], _, _, h => by simp [compositeLoop] at h
+  | i :: is, t :: ts, acc, b, h => by
+    simp only [compositeLoop] at h
+    cases he : encAt enc vals t i with
+    | ok x =>
+      simp only [he] at h
+      intro j hj
+      rcases List.mem_cons.mp hj with hj | hj
+      · subst hj; exact encAt_ok_lt he
+      · exact compositeLoop_key_bound enc vals is ts _ b h j hj
+    | err => simp [he] at h
+    | crash => simp [he] at h
+
+/-- the guard of the repaired `createRoutingKey` passes when every key marker has a bound value -/
+theorem createRoutingKey_eq_core (enc : τ → ν → Enc) (info : Info τ) (vals : List ν)
+    (h : ∀ i ∈ info.indexes, i < vals.length) :
+    createRoutingKey enc info vals = createRoutingKeyCore enc info vals := by
+  unfold createRoutingKey
+  have : info.indexes.any (fun i => decide (vals.length ≤ i)) = false := by
+    rw [List.any_eq_false]
+    intro i hi
+    have := h i hi
+    simp; omega
+  simp [this]
+
+/-- **KF-C09-1 repaired**: a key marker without a bound value is an ERROR (no index panic), whatever else is bound -/
+theorem createRoutingKey_short (enc : τ → ν → Enc) (info : Info τ) (vals : List ν) (i : Nat)
+    (hi : i ∈ info.indexes) (hshort : vals.length ≤ i) : createRoutingKey enc info vals = .errValues := by
+  unfold createRoutingKey
+  have : info.indexes.any (fun i => decide (vals.length ≤ i)) = true := by
+    rw [List.any_eq_true]
+    exact ⟨i, hi, by simpa using hshort⟩
+  simp [this]
+
+/-- with a bound value at every index, the loop panics only if Marshal does or a type is missing -/
+theorem compositeLoop_no_crash (enc : τ → ν → Enc) (vals : List ν) (hen : ∀ t v, enc t v ≠ .crash) :
+    ∀ (is : List Nat) (ts : List τ) (acc : Bytes), is.length ≤ ts.length → (∀ i ∈ is, i < vals.length) →
+      compositeLoop enc vals is ts acc ≠ .crash
+  | [], _, _, _, _ => by simp [compositeLoop]
+  | _ :: _, [], _, hl, _ => by simp at hl
+  | i :: is, t :: ts, acc, hl, hb => by
+    simp only [compositeLoop]
+    have hi : i < vals.length := hb i (by simp)
+    have hv : vals[i]? = some vals[i] := List.getElem?_eq_getElem hi
+    cases he : encAt enc vals t i with
+    | ok x =>
+      simp only
+      exact compositeLoop_no_crash enc vals hen is ts _ (by simpa using hl) (fun j hj => hb j (by simp [hj]))
+    | err => simp
+    | crash => simp [encAt, hv] at he; exact absurd he (hen t _)
+
+/-- **the repaired `createRoutingKey` is total**: no index panic for ANY number of bound values - a panic can only come
+    from Marshal itself or from an info with fewer types than indexes (routingKeyInfo never builds one) -/
+theorem createRoutingKey_no_crash (enc : τ → ν → Enc) (info : Info τ) (vals : List ν)
+    (hen : ∀ t v, enc t v ≠ .crash) (hl : info.indexes.length ≤ info.types.length) :
+    createRoutingKey enc info vals ≠ .crash := by
+  unfold createRoutingKey
+  split
+  · simp
+  · rename_i hany
+    have hb : ∀ i ∈ info.indexes, i < vals.length := by
+      simpa using hany
+    unfold createRoutingKeyCore
+    split
+    · rename_i i t _ hidx _
+      have hi : i < vals.length := hb i (by simp [hidx])
+      have hv : vals[i]? = some vals[i] := List.getElem?_eq_getElem hi
+      cases he : encAt enc vals t i with
+      | ok x => simp
+      | err => simp
+      | crash => simp [encAt, hv] at he; exact absurd he (hen t _)
+    · rename_i hidx hts
+      simp [hidx, hts] at hl
+    · exact compositeLoop_no_crash enc vals hen _ _ [] hl hb
+
 /-- SPEC: the components of the partition key, in partition-key order, for the marker indexes `pk` -/
 def Spec.components (enc : τ → ν → Enc) (cols : List (Col τ)) (vals : List ν) : List Nat → Option (List Bytes)
   | [] => some []
